@@ -15,10 +15,13 @@ structure Cfg where
   outputSize : Nat := 0
   cacheSize : Nat := 0
   flagCount : Nat := 0
-  root : Bytes := ascii "root"
+  root : Bytes := [114, 111, 111, 116]          -- "root"
   language : Bytes := []
   menuSep : Bytes := []
   resetOnEmpty : Bool := false
+  /-- model only: fuel for one `Vm.Run` (structural recursion). Theorems hold for every value; the
+  driver uses 2000 and reports exhaustion as its own outcome. -/
+  fuel : Nat := 2000
 deriving Repr, DecidableEq
 
 structure Eng where
@@ -66,8 +69,6 @@ end EM
 
 open EM
 
-/-- fuel for one `Vm.Run`: generous; the driver reports fuel exhaustion as its own outcome -/
-def runFuel : Nat := 2000
 
 /-- a new engine's VM state around a given state and cache (`setupVm`, `NewVm`) -/
 def newVmSt (cfg : Cfg) (st : St) (ca : Cache Bytes) (ghost : Ghost) : VmSt :=
@@ -145,11 +146,11 @@ def engReset : Nat → EM Unit
       else engReset fuel
 
 /-- `Flush`: the bytes written to the client -/
-def flush (env : Env) : EM Bytes := do
+def flush (env : Env) (cfg : Cfg) : EM Bytes := do
   let e ← get
   if !e.execd then fail "flush-no-exec" else do
   let lang := langOfEng e
-  let r ← attempt (vm (vmRender env runFuel lang))
+  let r ← attempt (vm (vmRender env cfg.fuel lang))
   let e ← get
   let out ← match r with
     | .ok r => pure r
@@ -174,13 +175,13 @@ def setCode (code : Bytes) : EM Bool := do
   else pure true
 
 /-- `runFirst`: returns whether to go on with the VM -/
-def runFirst (env : Env) : EM Bool := do
+def runFirst (env : Env) (cfg : Cfg) : EM Bool := do
   match env.first with
   | none => pure true
   | some fn => do
     let e ← get
     -- ca.Push(); st.Down("_first")
-    let firstSym := ascii "_first"
+    let firstSym : Bytes := [95, 102, 105, 114, 115, 116]   -- "_first"
     match e.vm.st.down firstSym with
     | .panic p => fun e => (.panic p, e)
     | .err k => fail k
@@ -193,7 +194,7 @@ def runFirst (env : Env) : EM Bool := do
       let e ← get
       let pvm : VmSt := { e.vm with pg := { menu := Menu.new }, sep := [0x3a] }
       let code := newLine Facts.opLOAD [firstSym] (some [0]) none ++ newLine Facts.opHALT [] none none
-      let (r, pvm') := runLoop env' runFuel (langOfEng e) code pvm
+      let (r, pvm') := runLoop env' cfg.fuel (langOfEng e) code pvm
       modify fun e => { e with vm := { e.vm with st := pvm'.st, ca := pvm'.ca, ghost := pvm'.ghost } }
       -- the deferred calls, in LIFO order: ResetFlag(DIRTY), ResetFlag(TERMINATE), st.Up(), ca.Pop()
       let finish : EM Unit := do
@@ -227,7 +228,7 @@ def runFirst (env : Env) : EM Bool := do
 def engInit (env : Env) (cfg : Cfg) (input : Bytes) : EM Bool := do
   let e ← get
   if e.execd then
-    let _ ← flush env                -- `empty()`: an error here fails the request
+    let _ ← flush env cfg               -- `empty()`: an error here fails the request
   modify fun e => { e with execd := false, exit := [], exiting := false }
   let e ← get
   if e.initd then pure true else do
@@ -244,7 +245,7 @@ def engInit (env : Env) (cfg : Cfg) (input : Bytes) : EM Bool := do
   | .panic p => fun e => (.panic p, e)
   | .ok st' => do
     modify fun e => { e with vm := { e.vm with st := st' } }
-    let r ← runFirst env
+    let r ← runFirst env cfg
     if !r then pure false else do
     let e ← get
     let cont ← if e.vm.st.code.length = 0 then
@@ -286,7 +287,7 @@ def exec (env : Env) (cfg : Cfg) (input : Bytes) : EM Bool := do
     let (code, st'') := e.vm.st.getCode
     modify fun e => { e with vm := { e.vm with st := st'' } }
     if code.length = 0 then fail "no-code" else do
-    let code' ← vm (runLoop env runFuel (langOfEng e) code)
+    let code' ← vm (runLoop env cfg.fuel (langOfEng e) code)
     modify fun e => { e with execd := true }
     let t ← vm (matchFlagM Facts.terminateFlag true)
     if t then pure false else setCode code'
@@ -296,5 +297,64 @@ def finish (e : Eng) : Res (Option Snap) :=
   if !e.initd then .ok none
   else if e.invalid then .panic "persister has been invalidated"
   else .ok (some (snapshot e))
+
+/-! ### what a client observes, and the two ways of serving a session -/
+
+/-- outcome tag of a Go call: value, returned error, panic (model fuel exhaustion kept apart) -/
+def vtag {α} : VRes α → String
+  | .ok _ => "ok"
+  | .err "fuel" _ => "fuel"
+  | .err _ _ => "err"
+  | .panic _ => "panic"
+
+/-- what the client of one request observes: result of Exec (tag and continue flag), result of
+Flush (tag, "-" when Flush is not called because Exec failed) and the bytes delivered. -/
+structure Obs where
+  x : String
+  cont : Bool
+  f : String
+  out : Bytes
+deriving Repr, DecidableEq
+
+/-- one client request on an engine: Exec, then Flush unless Exec failed. For the one refusal
+that Go reports with `cont = true` (input format) the continue flag is true. -/
+def request (env : Env) (cfg : Cfg) (e : Eng) (input : Bytes) : Obs × Eng :=
+  match exec env cfg input e with
+  | (.ok cont, e1) =>
+    match flush env cfg e1 with
+    | (.ok out, e2) => ({ x := "ok", cont := cont, f := "ok", out := out }, e2)
+    | (r, e2) => ({ x := "ok", cont := cont, f := vtag r, out := [] }, e2)
+  | (.err "invalid-input" _, e1) => ({ x := "err", cont := true, f := "-", out := [] }, e1)
+  | (r, e1) => ({ x := vtag r, cont := false, f := "-", out := [] }, e1)
+
+/-- a long-lived engine serving a whole history -/
+def longRun (env : Env) (cfg : Cfg) (e : Eng) : List Bytes → List Obs × Eng
+  | [] => ([], e)
+  | i :: is =>
+    let (o, e') := request env cfg e i
+    let (os, e'') := longRun env cfg e' is
+    (o :: os, e'')
+
+/-- one request served by a fresh engine over the stored session: Load (or create), Exec, Flush,
+Finish. Returns the observation and what the store holds afterwards. A brand-new session is stored
+as soon as the engine is prepared, i.e. for every request that gets past the format check. -/
+def persStep (env : Env) (cfg : Cfg) (snap : Option Snap) (input : Bytes) (ghost : Ghost := {}) :
+    Obs × Option Snap × Eng :=
+  let e := restore env cfg snap ghost
+  let (o, e') := request env cfg e input
+  let formatRefused := o.x = "err" && o.cont
+  let snap0 := match snap with
+    | some s => some s
+    | none => if formatRefused then none else some (snapshot (newEngine env cfg))
+  match finish e' with
+  | .ok (some s) => (o, some s, e')
+  | _ => (o, snap0, e')
+
+def persRun (env : Env) (cfg : Cfg) (snap : Option Snap) : List Bytes → List Obs × Option Snap
+  | [] => ([], snap)
+  | i :: is =>
+    let (o, snap', _) := persStep env cfg snap i
+    let (os, snap'') := persRun env cfg snap' is
+    (o :: os, snap'')
 
 end Vise
